@@ -92,5 +92,16 @@ def make_samplers(state, dataset, *, sampler_pop="Gibbs", sampler_ind="Gibbs", p
         kw.update(extra)
     settings = AlgorithmSettings("mcmc_saem", **kw)
     algo = algorithm_factory(settings)
-    algo._initialize_samplers(state, dataset)
+    from leaspy.exceptions import LeaspyInputError
+
+    from . import gen
+
+    try:
+        algo._initialize_samplers(state, dataset)
+    except LeaspyInputError as e:
+        if "Scale of variable" in str(e):
+            # the initial proposal scale of a population variable is |its value|: a value that is exactly 0 (e.g. feature mean
+            # exactly 0.5 -> log_g = 0) is refused at construction. No sampler, nothing to judge.
+            raise gen.InitRejected("sampler-refused:zero-initial-scale") from e
+        raise
     return algo
